@@ -188,6 +188,9 @@ class BaseComponent(Manager):
             self.parent = self
 
         self._updateRoot(self)
+        # The detached subtree dispatches on its own from now on: whatever
+        # this component cached while it was a root earlier is stale.
+        self._cache_needs_refresh = True
         return self
 
     def _updateRoot(self, root):
